@@ -248,6 +248,7 @@ structure Case where
   pos : List Byte
   neg : List Byte
   fifo : List Byte
+  dummy : Byte := 0#8
   quiet : Bool
   /-- frame specifications the FIFO content was encoded from (C04 streams only) -/
   fspec : Option String := none
@@ -274,6 +275,7 @@ def parseHeader (toks : List String) : Option Case := do
       | ["pos", v] => do pure { c with pos := ← parseHexBytes v }
       | ["neg", v] => do pure { c with neg := ← parseHexBytes v }
       | ["fifo", v] => do pure { c with fifo := ← parseHexBytes v }
+      | ["dummy", v] => do pure { c with dummy := BitVec.ofNat 8 (← parseHexNat v) }
       | ["fspec", v] => pure { c with fspec := some v }
       | ["ftail", v] => pure { c with ftail := v }
       | _ => none) init
@@ -333,7 +335,7 @@ def ofArray (arr : Array Byte) : Regs := fun a => arr.getD a 0#8
 def toArray (r : Regs) : Array Byte := Array.ofFn (n := 128) (fun i => r i.val)
 
 def runCase (c : Case) : String :=
-  let chip := Chip.powerOn (fun a => c.low.getD a 0#8) c.pos c.neg c.fifo
+  let chip := Chip.powerOn (fun a => c.low.getD a 0#8) c.pos c.neg c.fifo c.dummy
   let (j, w, o) := runCtor c.dev (failsOf c.ctorFaults) chip c.ctor
   let first := fmtObs c.quiet j w o
   match o with
